@@ -60,9 +60,11 @@ Reached(s) == \/ s.a \in taintH /\ s.b \in taintC
               \/ s.a \in taintH \cap taintC \/ s.b \in taintH \cap taintC     \* an accumulated difference finalised in constant time
 Unreached == { i \in DOMAIN G.sanitizers : ~Reached(G.sanitizers[i]) }
 ReachedSet == { i \in DOMAIN G.sanitizers : Reached(G.sanitizers[i]) }
+(* sites that see HMAC-derived data on one operand but no submitted text on the other: the extraction may have lost a flow *)
+HalfReached == { i \in Unreached : G.sanitizers[i].a \in taintH \/ G.sanitizers[i].b \in taintH }
 
 Report == Fixpoint =>
     ndJsonSerialize(IOEnv.VERIF_REPORT,
-        << [leaks |-> LeakSet, unreached |-> Unreached, reached |-> ReachedSet, nh |-> Cardinality(taintH), nc |-> Cardinality(taintC),
+        << [leaks |-> LeakSet, unreached |-> Unreached, reached |-> ReachedSet, half |-> HalfReached, nh |-> Cardinality(taintH), nc |-> Cardinality(taintC),
             both |-> Cardinality(taintH \cap taintC), nsan |-> Len(G.sanitizers), ncmp |-> Len(G.compares), nsrch |-> Cardinality(SrcH)] >>)
 =============================================================================
